@@ -8,6 +8,7 @@
      DocumentManager.Open/Update/Close/GetContent -> dm_open/dm_update/dm_close/dm_content
    Go int overflow is not modelled: offsets are bounded by the document length (< 2^63). *)
 From Coq Require Import List NArith ZArith Bool.
+From Coq Require Uint63.
 Import ListNotations.
 
 Inductive outcome (A : Type) : Type :=
@@ -96,11 +97,15 @@ Fixpoint prefix_len (k : nat) (lines : list (list N)) : Z :=
   | _, _ => 0%Z
   end.
 
+(* iterations of the for loop of positionToOffset: min(pos.Line, len(lines)) (never a huge unary number) *)
+Definition loop_count (line : Z) (lines : list (list N)) : nat :=
+  Z.to_nat (Z.min line (Z.of_nat (length lines))).
+
 (* positionToOffset(lines, pos) *)
 Definition pos_to_off (lines : list (list N)) (line char : Z) : outcome Z :=
   if (line <? 0)%Z then Val 0%Z
   else
-    let off := prefix_len (Z.to_nat line) lines in
+    let off := prefix_len (loop_count line lines) lines in
     if (Z.of_nat (length lines) <=? line)%Z then
       Val (if (off >? 0)%Z then (off - 1)%Z else off)
     else
@@ -224,6 +229,20 @@ Fixpoint dm_run (ds : docs) (ops : list dm_op) : outcome docs :=
 
 (* ---------------------------------------------------------------------------------------------
    evaluation helpers for the correspondence (cases generated by lib/c18.py) *)
+
+(* byte strings in generated case files are packed 7 bytes per primitive integer literal, little endian
+   (small terms: fast to parse and check); used only by the case files, never by a theorem *)
+Fixpoint unpack7 (k : nat) (z : Z) : list N :=
+  match k with
+  | O => []
+  | S k' => Z.to_N (z mod 256) :: unpack7 k' (z / 256)
+  end.
+Fixpoint unpack (len : nat) (ws : list Uint63.int) : list N :=
+  match ws with
+  | [] => []
+  | w :: r => unpack7 (Nat.min 7 len) (Uint63.to_Z w) ++ unpack (len - 7) r
+  end.
+
 Fixpoint list_eqb (a b : list N) : bool :=
   match a, b with
   | [] , [] => true
